@@ -120,6 +120,15 @@ PROPS = {
              "each history with prescribed results and globals; the driver replays them on the real VMs and compares results and all globals of both VMs after "
              "every operation.",
         note=_TRUST + "One library program (scalar, array, struct, vector globals; aggregate locals; recursion); host values are deep-copied by the driver."),
+    "C16": dict(
+        claimed=True, level="model_checking",
+        technique="TLA+ specification Linker (HostAdd / LoadImport in any order / Finish / Reject) model-checked by TLC over all import DAGs, host add orders and name clashes with LoadedOnce, OrderIndependent, ClashRejected; every terminal case replayed with nslc.py-compiled modules, the real Linker and a counting loader (spec->code conformance)",
+        text="TLC explores every import DAG on 3 (quick) / 4 (thorough) modules, every sequence of distinct modules the host can add and every order of loading "
+             "pending imports, with and without two definitions of one name, and checks the three properties on the specification. The driver renders each DAG as "
+             "sources (imports before or after the other items; private overloads; the clash as an exported or as a private function), compiles them separately, "
+             "links them in the prescribed order and compares outcome, per-module load counts and VM values with the same functions compiled as one module; "
+             "nslr.py is run once per DAG.",
+        note=_TRUST + "Not judged: the host adding a module that is also imported by another added module; imported modules without globals only."),
     "C17": dict(
         claimed=True, level="model_checking",
         technique="three-process store/load conformance: listing, IR projection and VM behaviour of the module reloaded by the real loader compared with the compiled module; the reloaded module's results judged against the TLA+ semantics NslSem and its functions checked by the TLA+ spec IRWellFormed (both run by TLC)",
